@@ -58,6 +58,8 @@ pub struct Flags {
     pub stack0_program_push: usize,
     pub max_size9: usize,
     pub stacks_above3_selected: usize,
+    /// context of the first pop from an I/O stack (0, 1, 2): "main:<kind>", "main-multi:<kind>", "area", "area-of-selecting-흑"
+    pub first_io_pop: Option<String>,
 }
 
 #[derive(Clone, Debug)]
@@ -74,6 +76,8 @@ pub struct Model {
     pub size_cap9: usize,
     /// stacks touched by the last step
     pub touched: Vec<usize>,
+    /// where in the current command we are (for classification only)
+    pub ctx: String,
 }
 
 /// split a text into lines, each keeping its terminator (as a real `read_line` does)
@@ -95,6 +99,7 @@ impl Model {
             flags: Flags::default(),
             size_cap9: usize::MAX,
             touched: Vec::new(),
+            ctx: String::new(),
         }
     }
 
@@ -159,6 +164,9 @@ impl Model {
     }
 
     fn pop(&mut self, idx: usize) -> Result<RefRat, Stop> {
+        if idx <= 2 && self.flags.first_io_pop.is_none() {
+            self.flags.first_io_pop = Some(self.ctx.clone());
+        }
         match idx {
             1 => Err(Stop::Exit(0)),
             2 => Err(Stop::Exit(1)),
@@ -187,6 +195,7 @@ impl Model {
         self.touched.clear();
         let c = self.cmds[loc].clone();
         let cur = self.cur;
+        self.ctx = if c.h >= 2 && (1..=4).contains(&c.kind) { format!("main-multi:{}", c.kind) } else { format!("main:{}", c.kind) };
         match c.kind {
             0 => {
                 let v = RefRat::from_int(RefInt::from_u64(c.h as u64).mul(&RefInt::from_u64(c.d as u64)));
@@ -239,6 +248,7 @@ impl Model {
         let count_u = (c.h as u128) * (c.d as u128);
         let count = RefRat::from_int(RefInt::from_u64(c.h as u64).mul(&RefInt::from_u64(c.d as u64)));
         let sel = self.cur;
+        self.ctx = if c.kind == 5 && sel != cur { "area-of-selecting-흑".to_string() } else { "area".to_string() };
         let mut node = &c.area;
         let heart = loop {
             match node {
